@@ -91,6 +91,11 @@ let dispatch f args = match f, args with
      | "p2tr" -> parse_p2tr o_segparse net s
      | _ -> failwith "parse which") in
     show_outcome (show_option (show_contract net)) r
+  | "parse_seq", [nets; s] ->
+    (* ONE parseable_str offered to the networks in turn: the cache travels with it *)
+    let nets = List.map net_of (String.split_on_char ',' nets) and s = arg_bytes s in
+    let rs = parse_address_seq o_b58dec o_segparse nets s pcache_empty in
+    show_list (fun (net, r) -> show_outcome (show_option (show_contract net)) r) (List.combine nets rs)
   | "for_address", [net; s] ->
     show_outcome (show_option show_bytes) (contract_for_address o_b58dec o_segparse (net_of net) (arg_bytes s))
   | "key_address", [net; sec] -> show_option show_text (key_address o_b58enc o_hash160 (net_of net) (arg_bytes sec))
